@@ -615,6 +615,22 @@ def _value_obs(s, cls):
     if cls in ("Bits", "ConstBitStream"):
         o["hash"] = g(lambda: hash(x))
     o["count"] = g(lambda: x.count(1))
+
+    def tofile():
+        # several chunks (hook BITSTRING_VERIF_TOFILE_CHUNK_BITS): the bytes written are a whole-value interpretation
+        import io, os
+        saved = os.environ.get("BITSTRING_VERIF_TOFILE_CHUNK_BITS")
+        os.environ["BITSTRING_VERIF_TOFILE_CHUNK_BITS"] = "16"
+        try:
+            f = io.BytesIO()
+            x.tofile(f)
+            return f.getvalue().hex()
+        finally:
+            if saved is None:
+                del os.environ["BITSTRING_VERIF_TOFILE_CHUNK_BITS"]
+            else:
+                os.environ["BITSTRING_VERIF_TOFILE_CHUNK_BITS"] = saved
+    o["tofile"] = g(tofile)
     return o
 
 
@@ -774,6 +790,7 @@ def oracle(line, out, extra):
         n = len(s)
         exp = {"len": n, "bin": s, "bytes": (int(s + "0" * (-n % 8), 2).to_bytes((n + 7) // 8, "big").hex() if n else ""), "eq": True,
                "count": s.count("1")}
+        exp["tofile"] = exp["bytes"]
         if n:
             exp["uint"] = int(s, 2)
             exp["int"] = int(s, 2) - ((1 << n) if s[0] == "1" else 0)
@@ -962,7 +979,7 @@ def gen_search(rng, tier):
             pats = _subpatterns(s, rng) + ([s[:8], s[1:9]] if n >= 9 else [])
             pairs = list(itertools.product(vals, vals))
             for t in pats:
-                keep = 1.0 if (n <= (8 if big else 5) and len(t) <= 2) else (0.8 if big else 0.06)
+                keep = 1.0 if (n <= (8 if big else 5) and len(t) <= 2) else (0.55 if big else 0.06)
                 for (a, b) in pairs:
                     if keep < 1.0 and rng.random() > keep:
                         continue
@@ -1121,7 +1138,7 @@ def _plant(rng, n, t, places):
 def gen_chunks(rng, tier):
     """data longer than one chunk of _findall_lsb0's reverse scan (increment = max(8192, 80*len(pat)))"""
     big = tier != "quick"
-    N = 320 if big else 26
+    N = 200 if big else 26
     for it in range(N):
         m = rng.choice([1, 2, 3, 8, 9, 16, 24, 100, 103, 128] if it % 3 else [8, 16, 103])
         t = rand_bits(rng, m) if rng.random() < 0.8 else "1" * m
@@ -1184,7 +1201,7 @@ def gen_seq(rng, tier):
     """histories on one object with the option toggled between the calls (the state is tracked with the
     plain-Python reference so that most steps are valid)"""
     big = tier != "quick"
-    for _ in range(25000 if big else 1500):
+    for _ in range(12000 if big else 1500):
         n = rng.randint(0, 12)
         s = rand_bits(rng, n)
         cur, steps = s, []
@@ -1227,7 +1244,7 @@ def gen_seq(rng, tier):
 
 def gen_random(rng, tier):
     big = tier != "quick"
-    for _ in range(150000 if big else 2500):
+    for _ in range(70000 if big else 2500):
         n = rng.choice([13, 14, 15, 16, 17, 20, 24, 31, 32, 33, 40])
         s = rand_bits(rng, n)
         pick = lambda: rng.choice([None, rng.randint(-n - 2, n + 2), rng.randint(0, n)])
